@@ -403,4 +403,11 @@ theorem solo_push_op {fx : Bool} (s : St) (t : Nat) (d : Bool) (v : Nat) (ht : t
   · have : s1.pushed = (N0 nd).data :: s.pushed := pu1
     simp [this, N0]
 
+/-- facts about the state after a concrete log, for instantiating the theorems -/
+theorem idle_of_map {lg : List Ev} {s : St} (h : runLog stepF (init 2) lg = some s) {c : List Nat}
+    (hm : (runLog stepF (init 2) lg).map (fun s => (s.pc 0, contents s)) = some (.idle, c)) :
+    s.pc 0 = .idle ∧ contents s = c := by
+  rw [h] at hm
+  simpa using hm
+
 end PikaVerif.Deque
